@@ -338,6 +338,8 @@ class Interp:
         import npsem
 
         self.np = npsem
+        del npsem.MODE_DIMS[:]
+        self.views = {}
 
     # ---- bookkeeping
     def event(self, kind, node, detail):
@@ -609,10 +611,13 @@ class Interp:
             if isinstance(v, Expr) and len(v.n) >= 2:
                 v = alg.define(v, target.id)
             elif isinstance(v, Arr):
+                ent = self.view_entry(v)
                 if isinstance(v.val, Expr) and len(v.val.n) >= 2 and not isinstance(v, SymArr):
                     v = v.copy(val=alg.define(v.val, target.id))
                 if v.name is None:
                     v = v.copy(name=target.id)
+                if ent is not None and ent[0] is not v:
+                    self.views[id(v)] = (v,) + ent[1:]  # the named copy is the same view
             env[target.id] = v
         elif isinstance(target, (ast.Tuple, ast.List)):
             items = self.unpack(v, len(target.elts), target)
@@ -946,14 +951,102 @@ class Interp:
             return
         if isinstance(arr, SymArr) or arr.meta.get("param"):
             self.event("param-mutation", target, "store into the caller's array %s" % (arr.meta.get("param") or arr.name))
+        if self.view_base(arr) is not None:
+            # the store changes the array the view was taken from
+            self.store_through_view(target, arr, v, env)
+            return
         idx = self.eval_index(target.slice, env)
         new = self.np.store(self, arr, idx, v, target, env)
         if new is not None:
+            self.refresh_views(env, arr, new)
             for k in list(env):
                 if env[k] is arr:
                     env[k] = new  # every alias of the mutated array sees the store
             env[base.id] = new
             self._rebind_in_containers(env, arr, new)
+
+    def _as_view(self, r, base, recompute=None, kind=("other",)):
+        if r is base:
+            r = r.copy()
+        self.views[id(r)] = (r, base, recompute, kind)
+        return r
+
+    def view_entry(self, arr):
+        ent = self.views.get(id(arr))
+        return ent if ent is not None and ent[0] is arr else None
+
+    def view_base(self, arr):
+        ent = self.view_entry(arr)
+        return ent[1] if ent is not None else None
+
+    def view_chain(self, arr):
+        """[(view, base, recompute, kind), ...] from arr up to the array that owns the memory"""
+        out = []
+        cur = arr
+        while True:
+            ent = self.view_entry(cur)
+            if ent is None:
+                return out
+            out.append(ent)
+            cur = ent[1]
+
+    def refresh_views(self, env, old, new):
+        """after `old` became `new` (a store), every view taken from it - directly or through other views - is re-read"""
+        for k in list(env):
+            v = env[k]
+            if not isinstance(v, Arr):
+                continue
+            chain = self.view_chain(v)
+            pos = [i for i, ent in enumerate(chain) if ent[1] is old]
+            if not pos:
+                continue
+            cur = new
+            ok = True
+            for ent in reversed(chain[: pos[0] + 1]):
+                if ent[2] is None:
+                    ok = False
+                    break
+                nxt = ent[2](cur)
+                if not isinstance(nxt, Arr):
+                    ok = False
+                    break
+                if nxt is cur:
+                    nxt = nxt.copy()
+                self.views[id(nxt)] = (nxt, cur, ent[2], ent[3])
+                cur = nxt
+            if ok and v.name is not None and cur.name is None:
+                ent = self.views[id(cur)]
+                cur = cur.copy(name=v.name)
+                self.views[id(cur)] = (cur,) + ent[1:]
+            env[k] = cur if ok else Unknown("%s: a view of an array that was modified after the view was taken" % k)
+
+    def store_through_view(self, target, arr, v, env):
+        """a[...] = v where a is a view: only the (levels, flattened non-mean modes) view of a (levels, ny, nx) spectrum is
+        modelled - it is the store  base[levels, every mode but the mean mode] = v"""
+        chain = self.view_chain(arr)
+        kinds = [ent[3][0] for ent in chain]
+        root = chain[-1][1]
+        if kinds != ["nonmean", "flatmerge"] or root.ndim != 3:
+            raise AnalysisError("%s:%d: store through %s, a view of %s: this kind of write through a view is not modelled" % (
+                self.cur_mod.name, target.lineno, ast.unparse(target.value), root.name or "another array"))
+        idx = self.eval_index(target.slice, env)
+        if len(idx) == 1 and idx[0] is Ellipsis:
+            lvl = SliceV(None, None, None)
+        elif len(idx) == 1 and (isinstance(idx[0], Expr) or (isinstance(idx[0], SliceV) and idx[0].is_full())):
+            lvl = idx[0]
+        elif len(idx) == 2 and isinstance(idx[1], SliceV) and idx[1].is_full() and (isinstance(idx[0], Expr) or (isinstance(idx[0], SliceV) and idx[0].is_full())):
+            lvl = idx[0]
+        else:
+            raise AnalysisError("%s:%d: index %s on a view of flattened modes is not modelled" % (self.cur_mod.name, target.lineno, ast.unparse(target.slice)))
+        mask = Arr((root.shape[1], root.shape[2]), self.ctx != "mean", "bool", {"ident": "nonmean", "count_dim": arr.shape[-1]})
+        new = self.np.store(self, root, [lvl, mask], v, target, env)
+        if new is None:
+            return
+        for k in list(env):
+            if env[k] is root:
+                env[k] = new
+        self._rebind_in_containers(env, root, new)
+        self.refresh_views(env, root, new)
 
     def _dict_store(self, arr, key, v, target):
         if self.loop_stack:
@@ -1078,7 +1171,7 @@ class Interp:
             st = self.__dict__.setdefault("modstate", {})
             return st.setdefault((m.name, name), Tup([], "dict"))
         if isinstance(node, (ast.Tuple, ast.List, ast.Dict, ast.Set)) and all(
-                isinstance(x, (ast.Constant, ast.Tuple, ast.List, ast.Dict, ast.Set, ast.UnaryOp, ast.Load, ast.USub, ast.UAdd)) for x in ast.walk(node)):
+                isinstance(x, (ast.Constant, ast.Tuple, ast.List, ast.Dict, ast.Set, ast.UnaryOp, ast.Load, ast.USub, ast.UAdd, ast.Attribute, ast.Name)) for x in ast.walk(node)):
             # literal table: tuples are immutable values, the mutable kinds are one object per abstract run
             st = self.__dict__.setdefault("modstate", {})
             key = (m.name, name)
@@ -1375,6 +1468,8 @@ class Interp:
                 for k, v in reversed(base.items):
                     if key_equal(k, key):
                         return v
+                if isinstance(key, str) and type(key) is str and not key.startswith("<") and base.items and all(type(k) is str for k, _ in base.items) and not self.loop_stack:
+                    raise raise_exc("KeyError", node, "KeyError(%r)" % key)
                 return Unknown("dict key %r" % (key,))
             if isinstance(node.slice, ast.Slice):
                 if any(isinstance(x, GenList) for x in base.items):
@@ -1393,7 +1488,12 @@ class Interp:
                 raise AnalysisError("%s:%d: tuple index out of range" % (self.cur_mod.name, node.lineno))
         if isinstance(base, Arr):
             idx = self.eval_index(node.slice, env)
-            return self.np.load(self, base, idx, node, env)
+            r = self.np.load(self, base, idx, node, env)
+            if isinstance(r, Arr) and not any(isinstance(i, Arr) for i in idx):
+                # basic indexing: numpy hands out a view of the same memory
+                kind = ("nonmean",) if r.meta.get("nonmean_of") is base else ("other",)
+                r = self._as_view(r, base, lambda nb, idx=idx, node=node, env=env: self.np.load(self, nb, idx, node, env), kind)
+            return r
         if isinstance(base, Opaque):
             key = self.eval(node.slice, env)
             if base.attrs.get("fault"):
@@ -1646,7 +1746,12 @@ class Interp:
         if f.kind == "builtin":
             return self.np.builtin(self, f.dotted, args, kwargs, node, env)
         if f.kind == "method":
-            return self.np.method(self, f, args, kwargs, node)
+            r = self.np.method(self, f, args, kwargs, node)
+            if isinstance(f.bound, Arr) and isinstance(r, Arr) and f.dotted.split(".")[-1] in ("reshape", "ravel", "transpose", "view", "squeeze", "swapaxes"):
+                kind = ("flatmerge",) if r.meta.get("flatmodes") is f.bound else ("other",)
+                r = self._as_view(r, f.bound, lambda nb, f=f, args=args, kwargs=kwargs, node=node: self.np.method(
+                    self, FuncRef("method", f.dotted, bound=nb), args, kwargs, node), kind)
+            return r
         if f.kind == "ext":
             return self.np.external(self, f.dotted, args, kwargs, node)
         raise AnalysisError("call kind %s" % f.kind)
